@@ -12,7 +12,7 @@ from its inbox that `c` had put there, `proj (.ctx c) (inbox q)` = what is still
 namespace Varpulis.Props.C26
 open Varpulis.Ctx
 
-variable {σ ε : Type}
+variable {σ ε τ : Type}
 
 /-- Inside a channel nothing is lost, duplicated or reordered, whatever the schedule and the send
 discipline: consumed ++ still queued = successfully enqueued, on every edge (ingress edges too). -/
@@ -103,6 +103,139 @@ theorem blocking_send_deadlock_counterexample :
   match c, hc with
   | 0, _ => exact ⟨hp.1.1.1.1, hp.1.1.1.2⟩
   | 1, _ => exact ⟨hp.1.1.2, hp.1.2⟩
+
+/-! ### programs: with contexts = without contexts
+
+A *program* (`Prog`) is a list of single-upstream stream declarations (name, source type, context)
+with one sequential transducer per stream; its meaning on `inputs`, independent of any context or
+schedule, is the unique solution `O` of the Kahn equations (`Kahn`): a raw type carries the inputs
+of that type, a stream carries what its transducer emits on the sequence of its source.
+`progNet P n cap blocking fuel` is the network whose contexts run the engine (`levels`, the model
+of `process_inner`) on their share of `P`, routed by `routeTy` (= `ingress_routing`).
+`Prog.single` puts every stream into context 0: the program without contexts. -/
+
+/-- For every schedule: once a run in which no forwarding `try_send` failed (e.g. any run with
+blocking sends) has consumed all inputs and drained all queues, the output channel holds, for every
+stream, exactly the meaning of the program — provided no stream is starved by the
+one-context-per-type routing table (guard of finding `C26-one-context-per-type`) and the engines'
+depth limit cuts nothing off. -/
+theorem contexts_compute_program_meaning (P : Prog τ ε) (hwf : ProgWF P) (n cap : Nat) (blocking : Bool)
+    (fuel : Nat) (hctx : ∀ sd ∈ P.streams, sd.ctx < n)
+    (hdepth : ∀ c st x, levelsDone P c fuel st [x] = true)
+    (hns : ∀ sd ∈ P.streams, starved P.streams sd = false)
+    (inputs : List ε) (hraw : ∀ e ∈ inputs, ∀ sd ∈ P.streams, P.ty e ≠ sd.name)
+    (s : St (Nat → τ) ε) (hr : Reach (progNet P n cap blocking fuel) (init inputs (progInit P)) s)
+    (hnd : NoDrop s.log) (hq : Quiescent (progNet P n cap blocking fuel) s) (ht : s.todo = []) :
+    Kahn P inputs (byType P inputs s.out) :=
+  progNet_kahn P hwf n cap blocking fuel hctx hdepth hns inputs hraw s hr hnd hq ht
+
+/-- The meaning is unique (programs are acyclic: a stream's source type is declared before it). -/
+theorem program_meaning_unique (P : Prog τ ε) (hacyc : ∀ sd ∈ P.streams, sd.src < sd.name)
+    (inputs : List ε) (O O' : Nat → List ε) (h : Kahn P inputs O) (h' : Kahn P inputs O') :
+    ∀ t, O t = O' t :=
+  kahn_unique P hacyc inputs O O' h h'
+
+/-- **Splitting a single-upstream program across contexts does not change its output**, for any
+two schedules: a drop-free complete run `sC` of the program with its contexts and a complete run
+`sP` of the same program without contexts emit, for every stream, the same events in the same
+order, and the same multiset of events overall. -/
+theorem contexts_same_outputs [DecidableEq ε] (P : Prog τ ε) (hwf : ProgWF P)
+    (hacyc : ∀ sd ∈ P.streams, sd.src < sd.name)
+    (n cap : Nat) (blocking : Bool) (fuel : Nat)
+    (hctx : ∀ sd ∈ P.streams, sd.ctx < n)
+    (hdepth : ∀ c st x, levelsDone P c fuel st [x] = true)
+    (hns : ∀ sd ∈ P.streams, starved P.streams sd = false)
+    (cap0 fuel0 : Nat) (hdepth0 : ∀ c st x, levelsDone P.single c fuel0 st [x] = true)
+    (inputs : List ε) (hraw : ∀ e ∈ inputs, ∀ sd ∈ P.streams, P.ty e ≠ sd.name)
+    (sC : St (Nat → τ) ε) (hrC : Reach (progNet P n cap blocking fuel) (init inputs (progInit P)) sC)
+    (hndC : NoDrop sC.log) (hqC : Quiescent (progNet P n cap blocking fuel) sC) (htC : sC.todo = [])
+    (sP : St (Nat → τ) ε) (hrP : Reach (progNet P.single 1 cap0 true fuel0) (init inputs (progInit P.single)) sP)
+    (hqP : Quiescent (progNet P.single 1 cap0 true fuel0) sP) (htP : sP.todo = []) :
+    (∀ t, sC.out.filter (fun e => P.ty e = t) = sP.out.filter (fun e => P.ty e = t)) ∧ sC.out.Perm sP.out := by
+  have hwf0 := single_wf P hwf
+  have hctx0 : ∀ sd ∈ P.single.streams, sd.ctx < 1 := by
+    intro sd hsd
+    simp only [Prog.single, List.mem_map] at hsd
+    obtain ⟨sd', _, rfl⟩ := hsd; simp
+  have hraw0 : ∀ e ∈ inputs, ∀ sd ∈ P.single.streams, P.single.ty e ≠ sd.name := by
+    intro e he sd hsd
+    simp only [Prog.single, List.mem_map] at hsd
+    obtain ⟨sd', hsd', rfl⟩ := hsd
+    exact hraw e he sd' hsd'
+  have hndP : NoDrop sP.log := reach_noDrop _ rfl _ sP (by intro o ho; simp [init] at ho) hrP
+  have kC := progNet_kahn P hwf n cap blocking fuel hctx hdepth hns inputs hraw sC hrC hndC hqC htC
+  have kP := (single_kahn P inputs _).1
+    (progNet_kahn P.single hwf0 1 cap0 true fuel0 hctx0 hdepth0 (single_not_starved P hwf) inputs hraw0 sP hrP hndP hqP htP)
+  have huniq := kahn_unique P hacyc inputs _ _ kC kP
+  have hfil : ∀ t, sC.out.filter (fun e => P.ty e = t) = sP.out.filter (fun e => P.ty e = t) := by
+    intro t
+    by_cases hany : P.streams.any (fun sd => sd.name == t) = true
+    · have := huniq t
+      simp only [byType, single_any, hany, if_true] at this
+      exact this
+    · have hno : ∀ sd ∈ P.streams, sd.name ≠ t := by
+        intro sd hsd hn
+        apply hany; simp only [List.any_eq_true]; exact ⟨sd, hsd, by simp [hn]⟩
+      have e1 : sC.out.filter (fun e => P.ty e = t) = [] := by
+        apply List.filter_eq_nil_iff.2
+        intro e he hty
+        obtain ⟨sd, hsd, hn⟩ := progNet_out_typed P hwf n cap blocking fuel hctx hdepth inputs hraw sC hrC e he
+        exact hno sd hsd (by rw [← hn]; simpa using hty)
+      have e2 : sP.out.filter (fun e => P.ty e = t) = [] := by
+        apply List.filter_eq_nil_iff.2
+        intro e he hty
+        obtain ⟨sd, hsd, hn⟩ := progNet_out_typed P.single hwf0 1 cap0 true fuel0 hctx0 hdepth0 inputs hraw0 sP hrP e he
+        simp only [Prog.single, List.mem_map] at hsd
+        obtain ⟨sd', hsd', rfl⟩ := hsd
+        have hty' : P.ty e = t := by simpa using hty
+        exact hno sd' hsd' (hn.symm.trans hty')
+      rw [e1, e2]
+  exact ⟨hfil, perm_of_filter_eq P.ty _ _ hfil⟩
+
+/-- … and with blocking sends every run is drop-free. -/
+theorem blocking_runs_are_drop_free (net : Net σ ε) (hb : net.blocking = true) (inputs : List ε)
+    (σ0 : Nat → σ) (s : St σ ε) (h : Reach net (init inputs σ0) s) : NoDrop s.log :=
+  reach_noDrop net hb _ s (by intro o ho; simp [init] at ho) h
+
+/-- The premises are satisfiable by a non-trivial program: three chained stateful streams, the
+first two in context 0 (the second is fed inside the engine), the third in context 1; capacity 1,
+blocking sends. -/
+example : ProgWF (demoProg 1) ∧ (∀ sd ∈ (demoProg 1).streams, sd.src < sd.name) ∧
+    (∀ sd ∈ (demoProg 1).streams, sd.ctx < 2) ∧
+    (∀ c st x, levelsDone (demoProg 1) c 10 st [x] = true) ∧
+    (∀ c st x, levelsDone (demoProg 1).single c 10 st [x] = true) ∧
+    (∀ sd ∈ (demoProg 1).streams, starved (demoProg 1).streams sd = false) ∧
+    ∃ s, Reach (progNet (demoProg 1) 2 1 true 10) (init [(0, 5), (0, 7)] (progInit (demoProg 1))) s ∧
+      Quiescent (progNet (demoProg 1) 2 1 true 10) s ∧ s.todo = [] ∧
+      s.out = [(1, 5), (2, 5), (1, 8), (2, 9), (3, 5), (3, 10)] := by
+  refine ⟨demo_wf 1, by decide, by decide, demo_depth, demo_depth_single, by decide, ?_⟩
+  obtain ⟨s, hr, hp⟩ := witness (progNet (demoProg 1) 2 1 true 10) (init [(0, 5), (0, 7)] (progInit (demoProg 1)))
+    [.feed, .recv 0, .fwd 0, .fwd 0, .feed, .recv 0, .fwd 0, .recv 1, .fwd 0, .fwd 1, .recv 1, .fwd 1]
+    (fun s => decide (Quiescent (progNet (demoProg 1) 2 1 true 10) s ∧ s.todo = [] ∧
+      s.out = [(1, 5), (2, 5), (1, 8), (2, 9), (3, 5), (3, 10)])) (by decide)
+  exact ⟨s, hr, of_decide_eq_true hp⟩
+
+/-- Finding `C26-one-context-per-type`, the full-strength statement fails without the guard: a raw
+type consumed by streams of two contexts is routed to the context of the last one only. A complete,
+drop-free run with contexts never shows an event of stream `1`; the run without contexts does. -/
+theorem one_context_per_type_counterexample :
+    starved fanProg.streams { name := 1, src := 0, ctx := 0 } = true ∧
+    (∃ sC, Reach (progNet fanProg 2 4 false 10) (init [(0, 5)] (progInit fanProg)) sC ∧
+      Quiescent (progNet fanProg 2 4 false 10) sC ∧ sC.todo = [] ∧ drops sC.log 0 1 = [] ∧
+      drops sC.log 1 0 = [] ∧ sC.out = [(2, 5)]) ∧
+    (∃ sP, Reach (progNet fanProg.single 1 4 true 10) (init [(0, 5)] (progInit fanProg.single)) sP ∧
+      Quiescent (progNet fanProg.single 1 4 true 10) sP ∧ sP.todo = [] ∧ sP.out = [(1, 5), (2, 5)]) := by
+  refine ⟨by decide, ?_, ?_⟩
+  · obtain ⟨s, hr, hp⟩ := witness (progNet fanProg 2 4 false 10) (init [(0, 5)] (progInit fanProg))
+      [.feed, .recv 1, .fwd 1]
+      (fun s => decide (Quiescent (progNet fanProg 2 4 false 10) s ∧ s.todo = [] ∧ drops s.log 0 1 = [] ∧
+        drops s.log 1 0 = [] ∧ s.out = [(2, 5)])) (by decide)
+    exact ⟨s, hr, of_decide_eq_true hp⟩
+  · obtain ⟨s, hr, hp⟩ := witness (progNet fanProg.single 1 4 true 10) (init [(0, 5)] (progInit fanProg.single))
+      [.feed, .recv 0, .fwd 0, .fwd 0]
+      (fun s => decide (Quiescent (progNet fanProg.single 1 4 true 10) s ∧ s.todo = [] ∧
+        s.out = [(1, 5), (2, 5)])) (by decide)
+    exact ⟨s, hr, of_decide_eq_true hp⟩
 
 /-- The executable successor function used to validate implementation traces is exactly the
 transition relation. -/
